@@ -35,7 +35,7 @@ Definition run (v : val) : val :=
     let cm := tab_multi (dlist dstr ml) in
     let roots := build_tree ci cm adds in
     let paths := fun i => segs_of (dstr (nth i uris (L []))) in
-    let st := Model.run ci cm roots paths (dbool ul) (dbool rc) (dlist dnat sched) in
+    let st := Model.run_sched ci cm roots paths (dbool ul) (dbool rc) (dlist dnat sched) in
     L [vbool (wf ci cm roots);
        L (map (fun i => L [v_pc (s_pc st i); v_outcome (serial ci cm roots paths i)])
               (seq 0 (length uris)))]
